@@ -19,7 +19,7 @@ def get_tl_num_size (val : Int) : Except PyErr Int := do
         pure (9 : Int)
 def get_tl_num_size_translated : Bool := true
 
-/-- `def write_tl_num(val: int, buf: VarBinaryStr, offset: int = 0) -> int` (src/ndn/encoding/tlv_var.py:45); writes to `buf`: the result is paired with the final contents of that buffer -/
+/-- `def write_tl_num(val: int, buf: VarBinaryStr, offset: int = 0) -> int` (src/ndn/encoding/tlv_var.py:45); writes to `buf`: the result is paired with the final contents of that buffer / dict -/
 def write_tl_num (val : Int) (buf : Bytes) (offset : Int) : Except PyErr (Int × Bytes) := do
   if (val ≤ (0xFC : Int)) then
     let buf ← Py.packInto [1] [val] buf offset
@@ -89,7 +89,7 @@ def parse_and_check_tl (wire : Bytes) (expected_type : Int) : Except PyErr Bytes
       pure (Py.slice wire (typ_len + siz_len) ((typ_len + siz_len) + size))
 def parse_and_check_tl_translated : Bool := true
 
-/-- `def shrink_length(wire: VarBinaryStr, val: int) -> VarBinaryStr` (src/ndn/encoding/tlv_var.py:151); writes to `wire`: the result is paired with the final contents of that buffer -/
+/-- `def shrink_length(wire: VarBinaryStr, val: int) -> VarBinaryStr` (src/ndn/encoding/tlv_var.py:151); writes to `wire`: the result is paired with the final contents of that buffer / dict -/
 def shrink_length (wire : Bytes) (val : Int) : Except PyErr (Bytes × Bytes) := do
   let tmp_1 ← parse_tl_num wire (0 : Int)
   let (typ, typ_len) : (Int × Int) := tmp_1
